@@ -17,15 +17,19 @@ Theorem C07_price_is_df_mean :
        == df * notional * mean (map (fun i => nth j (payoff (path i)) 0) (seq 0 n)).
 Proof. exact price_is_df_mean_full. Qed.
 
-(* Engine.price called repeatedly on ONE engine (other path count, other product).  The engine's statistics are STATE:
-   initialisation replaces them by np.empty arrays, an oracle that may hand back anything -- e.g. the rows of the
-   previous pricing.  For every such allocator with the right number of rows, every pricing holds exactly its own
-   p_n paths, each once. *)
+(* Engine.price called repeatedly on ONE engine (other path count, other product).  The engine's statistics are STATE; the
+   model has both behaviours of initialisation (keep = false: the code, a new MCStatistics whose np.empty content is an
+   arbitrary oracle of the previous rows; keep = true: keep the buffers and only extend them).  For the code's branch every
+   pricing holds exactly its own p_n paths, each once, whatever the garbage oracle and the previous state; the other
+   branch does not (Example C07_keeping_the_buffers_is_wrong). *)
 Theorem C07_repricing_uses_own_paths :
-  forall np_empty : list (list Q) -> nat -> list (list Q), (forall prev n, length (np_empty prev n) = n) ->
-  forall ps prev,
-    price_seq np_empty prev ps = map (fun p => map (std_row (p_payoff p) (p_path p) (p_df p) (p_notional p)) (seq 0 (p_n p))) ps.
+  forall (garb : list (list Q) -> nat -> list Q) ps prev,
+    price_seq garb false prev ps = map (fun p => map (std_row (p_payoff p) (p_path p) (p_df p) (p_notional p)) (seq 0 (p_n p))) ps.
 Proof. exact price_seq_own_paths. Qed.
+Example C07_keeping_the_buffers_is_wrong :
+  price_seq recycling_garb true [] [w_pr 2; w_pr 1] = [[[1]; [2]]; [[1]; [2]]]
+  /\ price_seq recycling_garb false [] [w_pr 2; w_pr 1] = [[[1]; [2]]; [[1]]].
+Proof. exact keeping_the_buffers_is_wrong. Qed.
 
 (* mc_stddev()^2, component j = unbiased sample variance of column j divided by the number of paths n
    (n >= 2; for n = 1 the code returns [0.0]) *)
